@@ -42,6 +42,32 @@ type Image interface {
 	CellSize() (w int, h int)
 }
 
+// originImage presents an image whose bounds do not start at (0, 0), such as
+// a sub-image, with its top left pixel at the origin. The renderers in this
+// file measure an image by the far corner of its bounds and address its pixels
+// from the origin
+type originImage struct {
+	image.Image
+	min image.Point
+}
+
+func (o originImage) Bounds() image.Rectangle {
+	return o.Image.Bounds().Sub(o.min)
+}
+
+func (o originImage) At(x int, y int) color.Color {
+	return o.Image.At(x+o.min.X, y+o.min.Y)
+}
+
+// atOrigin returns img with its bounds translated to start at (0, 0)
+func atOrigin(img image.Image) image.Image {
+	min := img.Bounds().Min
+	if min == (image.Point{}) {
+		return img
+	}
+	return originImage{Image: img, min: min}
+}
+
 // NewImage creates a new image using the highest quality renderer the terminal
 // is capable of
 func (vx *Vaxis) NewImage(img image.Image) (Image, error) {
@@ -74,7 +100,7 @@ func (vx *Vaxis) NewKittyGraphic(img image.Image) *KittyImage {
 	log.Trace("new kitty image")
 	k := &KittyImage{
 		vx:  vx,
-		img: img,
+		img: atOrigin(img),
 		id:  vx.nextGraphicID(),
 		buf: bytes.NewBuffer(nil),
 	}
@@ -307,7 +333,7 @@ func (vx *Vaxis) NewSixel(img image.Image) *Sixel {
 	log.Trace("new sixel image")
 	s := &Sixel{
 		vx:  vx,
-		img: img,
+		img: atOrigin(img),
 		id:  vx.nextGraphicID(),
 		buf: bytes.NewBuffer(nil),
 	}
@@ -398,7 +424,7 @@ func (vx *Vaxis) NewFullBlockImage(img image.Image) *FullBlockImage {
 	log.Trace("new full block image")
 	fb := &FullBlockImage{
 		vx:  vx,
-		img: img,
+		img: atOrigin(img),
 	}
 	return fb
 }
@@ -516,7 +542,7 @@ func (vx *Vaxis) NewHalfBlockImage(img image.Image) *HalfBlockImage {
 	log.Trace("new half block image")
 	hb := &HalfBlockImage{
 		vx:  vx,
-		img: img,
+		img: atOrigin(img),
 	}
 	return hb
 }
